@@ -139,6 +139,12 @@ def check_accuracy(rep, repo):
         if t[0] == "idx" and t[1][0] == "idx" and t[2][0] == "const":
             arr = t[1][1]
             cols[t[1][2]] = t[2][1]
+    if not cols and all(e.target[0] == "idx" and e.target[2] in (T, P) for e in inc) and len({e.target[1] for e in inc}) == 2:
+        # two separate per-class counters (one array per kind of error) combined later by whole-array operations
+        # (np.stack / column arithmetic): which counter ends up in which column is a whole-array computation
+        from ..core import AnalysisError
+        raise AnalysisError(f"{fi.qual}: the two kinds of error are counted in separate arrays and combined by whole-array "
+                            "operations; the column each one is normalised in is outside the analysable (one 2-column table) fragment")
     ok_roles = set(cols) == {T, P} and cols.get(T) != cols.get(P)
     rep.fn("ACC-roles", fi, "false positives are counted on the predicted class, false negatives on the true class",
            ok_roles, f"increments at {[show(e.target)[-40:] for e in inc]}")
@@ -295,7 +301,7 @@ def check_purity(rep, repo):
                     want = ("bin", "/", ("call", ("mod", "numpy.sum"), (inner,), ()), n_t)
                     if rets[0].value == want or vret == want:
                         ok = True
-        ok = ok or _purity_loop(w, rets[0].value, cm)
+        ok = ok or _purity_loop(w, rets[0].value, cm) or _purity_scalar_loops(w, rets[0].value, cm)
     rep.fn("PUR", fi, "purity = sum over predicted groups of max over true classes of M[true][pred], / N", ok,
            f"returns '{show(rets[0].value)[:160] if rets else '?'}' (the matrix must be confusion_matrix(labels, preds) "
            "and the maximum must run over axis 0, the true-class axis)")
@@ -326,6 +332,46 @@ def _purity_loop(w, value, cm) -> bool:
             stores = [e for e in w.events if li.lid in e.loops and e.kind == "store"]
             return not stores
     return False
+
+
+def _purity_scalar_loops(w, value, cm) -> bool:
+    """The same sum entry by entry: acc = 0; for g in range(#classes): best = 0; for row in M: if row[g] > best: best = row[g];
+    acc += best.  (M or M.tolist(); the entries are counts >= 0, so the running maximum may start at 0.)"""
+    from ..ir import tkey
+    n = ("call", ("builtin", "len"), (("param", "labels"),), ())
+    if value[0] != "bin" or value[1] != "/" or value[3] != n:
+        return False
+    num = value[2]
+    if num[0] == "call" and num[1] in (("mod", "numpy.float64"), ("builtin", "float")) and len(num[2]) == 1 and not num[3]:
+        num = num[2][0]
+    if num[0] != "phi":
+        return False
+    outer = w.loops.get(num[1])
+    if outer is None or outer.kind != "for" or outer.loops or num[2] not in outer.carried:
+        return False
+    rows = [cm, ("call", ("attr", cm, "tolist"), (), ())]
+    sizes = [("call", ("builtin", "len"), (r,), ()) for r in rows] + [("idx", ("attr", cm, "shape"), ("const", k)) for k in (0, 1)]
+    if outer.domain not in [("call", ("builtin", "range"), (sz,), ()) for sz in sizes]:
+        return False
+    g = ("iter", outer.domain, outer.lid)
+    init, nxt = outer.carried[num[2]]
+    acc = ("phi", outer.lid, num[2])
+    if init not in (("const", 0), ("const", 0.0)) or nxt[0] != "bin" or nxt[1] != "+" or acc not in nxt[2:4]:
+        return False
+    best = nxt[3] if nxt[2] == acc else nxt[2]
+    if best[0] != "phi":
+        return False
+    inner = w.loops.get(best[1])
+    if inner is None or inner.kind != "for" or inner.loops != (outer.lid,) or inner.domain not in rows or best[2] not in inner.carried:
+        return False
+    row = ("iter", inner.domain, inner.lid)
+    entry = ("idx", row, g)
+    b0, b1 = inner.carried[best[2]]
+    B = ("phi", inner.lid, best[2])
+    if b0 not in (("const", 0), ("const", 0.0)) or b1 != ("sel", ("cmp", "<", B, entry), entry, B):
+        return False
+    stores = [e for e in w.events if outer.lid in e.loops and e.kind == "store"]
+    return not stores
 
 
 def check_normalize(rep, repo):
